@@ -846,6 +846,97 @@ func (P *Program) ScanContainment() []ScanSite {
 	return sites
 }
 
+// ScanInvocationWrites (C13, C14, C02): a compiled expression is a Go closure
+// (compiler.Closure: func(*val.Env) *val.Val, or a thunk / built-in of type
+// val.IFun).  Whatever such a closure writes when it is INVOKED must be
+// allocated by that invocation or reachable from its argument: memory it
+// reaches through a captured variable was allocated when the expression was
+// compiled and is shared by every invocation of that expression (concurrent or
+// re-entrant ones included) - hidden per-expression state.  One site per
+// closure and captured variable written through.
+func (P *Program) ScanInvocationWrites() []ScanSite {
+	it := P.initTime()
+	reach := P.reachableFromAPI()
+	wp := P.writesParams(it)
+	isRuntimeClosure := func(fn *ssa.Function) bool {
+		if fn.Parent() == nil || it[fn] {
+			return false
+		}
+		sg := fn.Signature
+		if sg.Results().Len() != 1 || sg.Results().At(0).Type().String() != "*"+ModPath+"/val.Val" {
+			return false
+		}
+		if sg.Params().Len() != 1 {
+			return false
+		}
+		pt := sg.Params().At(0).Type().String()
+		if pt != "*"+ModPath+"/val.Env" && pt != "[]*"+ModPath+"/val.Val" {
+			return false
+		}
+		// only closures handed out by a closure factory (a function that
+		// returns a function: compile0, makeCallClosure, vm.Compile ...) outlive
+		// the call that created them; a closure made and used inside one
+		// evaluation (the VM's thunk forcer) captures that evaluation's own state
+		par := fn.Parent().Signature.Results()
+		for i := 0; i < par.Len(); i++ {
+			if _, ok := par.At(i).Type().Underlying().(*types.Signature); ok {
+				return true
+			}
+		}
+		return false
+	}
+	found := map[string]string{}
+	for _, fn := range P.AllFuncs {
+		if fn.Blocks == nil || !reach[fn] || !isRuntimeClosure(fn) {
+			continue
+		}
+		note := func(addr ssa.Value, what string) {
+			r := P.rootOf(addr, it, map[ssa.Value]bool{})
+			if r.kind == rParam {
+				if fv, ok := r.src.(*ssa.FreeVar); ok {
+					// assigning the captured variable itself is covered too (the cell is shared)
+					found[fnLabel(fn)+":"+fv.Name()] = what
+				}
+			}
+		}
+		for _, b := range fn.Blocks {
+			for _, in := range b.Instrs {
+				switch x := in.(type) {
+				case *ssa.Store:
+					note(x.Addr, "store")
+				case *ssa.MapUpdate:
+					note(x.Map, "map update")
+				case *ssa.Call:
+					if bi, ok := x.Call.Value.(*ssa.Builtin); ok {
+						if bi.Name() == "copy" || bi.Name() == "delete" {
+							note(x.Call.Args[0], bi.Name())
+						}
+						continue
+					}
+					if callee := x.Call.StaticCallee(); callee != nil && wp[callee] != nil {
+						for i, a := range x.Call.Args {
+							if wp[callee][i] {
+								note(a, "write through "+callee.Name())
+							}
+						}
+					}
+				}
+			}
+		}
+	}
+	var sites []ScanSite
+	for k, what := range found {
+		sites = append(sites, ScanSite{Name: "frames/invocation-write/" + k, Props: []string{"C13", "C14", "C02", "C03"},
+			Why: what + " to memory reached through a captured variable: allocated when the expression was compiled, shared by all its invocations"})
+	}
+	sort.Slice(sites, func(i, j int) bool { return sites[i].Name < sites[j].Name })
+	if len(sites) == 0 {
+		sites = append(sites, ScanSite{Name: "frames/invocation-write", Props: []string{"C13", "C14", "C02", "C03"}, OK: true,
+			Why: "no compiled closure (func(*val.Env) *val.Val / val.IFun created outside initialisation) writes through a captured variable"})
+	}
+	return sites
+}
+
 // ScanFuncTypes: a named function type with a `functype` contract block is a
 // behavioural interface.  A dynamic call through a value of that type
 // assumes the block's contract; so every function that is converted to the
@@ -938,6 +1029,7 @@ func (P *Program) ScanObligations(prop string) (*Result, []string) {
 	sites = append(sites, P.ScanContainment()...)
 	sites = append(sites, P.ScanImmutable()...)
 	sites = append(sites, P.ScanFuncTypes()...)
+	sites = append(sites, P.ScanInvocationWrites()...)
 	r := &Result{Block: &Block{Kind: "scan", Name: "frames"}}
 	var assumes []string
 	for _, s := range sites {
